@@ -1,4 +1,5 @@
 import GohbaseVerif.Props.C11Cell
+import GohbaseVerif.Props.C11Names
 import GohbaseVerif.Lemmas.Receive
 /-!
 # C11 — Malformed data from the network cannot crash the client
@@ -229,5 +230,25 @@ example : receiveDecide (fun _ => some .get) false none (fr 1)
     = .ok ⟨[(0, ⟨.get ⟨some { cells := [] }⟩, some .retryable⟩)], false⟩ := by decide
 /-- no call id / unknown call id: the connection fails (C03) and nothing is delivered by `receive` -/
 example : receiveDecide (fun _ => none) false none (fr 0) = .ok ⟨[], true⟩ := by decide
+
+/-! ## Meta row keys (fix 7f9c1ed) — proofs in `Props/C11Names.lean` -/
+
+/-- A meta row key that passes `infoFromCell`'s check is `table,startkey,id` with comma-free table
+and id … -/
+theorem meta_row_key_accepted_is_region_name (n : Bytes) (h : GV.RegionName.acceptedName n = true) :
+    ∃ t k s, n = GV.RegionName.mkName t k s ∧ GV.RegionName.comma ∉ t ∧ GV.RegionName.comma ∉ s :=
+  GV.RegionName.accepted_is_mkName n h
+
+/-- … so comparing two accepted names (what the location cache does with them) never panics. -/
+theorem meta_row_keys_never_crash_the_cache (a b : Bytes)
+    (ha : GV.RegionName.acceptedName a = true) (hb : GV.RegionName.acceptedName b = true) :
+    (GV.RegionName.compareName a b).isFault = false :=
+  GV.RegionName.accepted_names_never_fault a b ha hb
+
+/-- Regenerated: the check `infoFromCell` applies is the two-comma check. -/
+theorem meta_row_key_checked_in_source :
+    GV.Gen.Exits.metaRowKeyCheck
+      = "i := bytes.IndexByte(cell.Row, ','); i < 0 || bytes.LastIndexByte(cell.Row, ',') == i" :=
+  GV.RegionName.meta_row_key_checked_in_source
 
 end GV.C11
